@@ -11,8 +11,8 @@
 //!    Mismatches whose target is in the known class (known_findings.json C06/grid-estimate-absolute) print `KNOWN`.
 //! lines: `FAIL <idx> class=<..> <msg>` | `KNOWN <idx> class=gridabs|hiddenroot <msg>` | `PANIC <idx> <which>` | `STAT k=v ...` | `DONE <n> <compared nodes> <zero-checked nodes> <both-panic>`
 //! `vh c05|c06 one <seed> <idx>`: verbose replay of one case.
-//! `vh c05 cases <seed> <n> [start]`: K family in the `vh c08 cases` protocol (same C/R lines, same model runner
-//!    Model/PlacementRun.v) but with 60% of the children display:none or position:absolute, most with definite lines.
+//! `vh c05 cases <seed> <n> [start] [skipped=1|2]`: K family in the `vh c08 cases` protocol (same C/R lines, same model runner
+//!    Model/PlacementRun.v) but with half of the children display:none (1, C05) or position:absolute (2, C06), most with definite lines.
 //! `vh c06 witness`: the known finding's reproducer (container height with / without the absolute child's grid line).
 use crate::c08;
 use crate::rng::Rng;
@@ -304,17 +304,43 @@ fn estimate_contribution(l: &Line<GridPlacement>, explicit: i64) -> (i64, i64, i
     }
 }
 
+/// explicit track count of a template when every auto-fill / auto-fit repetition is instantiated once: what
+/// compute_explicit_grid_size_in_axis returns when the container size is indefinite in that axis (sizing passes)
+fn one_repetition_count(template: &[TrackSizingFunction]) -> (i64, bool) {
+    let mut n = 0i64;
+    let mut auto = false;
+    for t in template {
+        match t {
+            TrackSizingFunction::Single(_) => n += 1,
+            TrackSizingFunction::Repeat(GridTrackRepetition::Count(c), v) => n += *c as i64 * v.len() as i64,
+            TrackSizingFunction::Repeat(_, v) => {
+                auto = true;
+                n += v.len() as i64
+            }
+        }
+    }
+    (n, auto)
+}
+
 /// the known class of C06/grid-estimate-absolute: a box-generating absolute child of a GRID container whose placement, in
 /// some axis, has a definite (non-zero) line outside the explicit grid -- itself or through its span -- or a span larger
-/// than the explicit track count
+/// than the explicit track count.  The explicit track count of an axis is the one reported by detailed_layout_info, or,
+/// for a template with an auto-fill / auto-fit repetition, the smaller one of a sizing pass with an indefinite container
+/// size (one repetition); "outside" is monotone in the count, so the smallest count decides.
 fn in_known_class(style: &Style, parent: &Style, explicit: Option<(i64, i64)>) -> bool {
     if parent.display != Display::Grid {
         return false;
     }
-    let (er, ec) = match explicit {
-        Some(x) => x,
-        None => return false,
+    let low = |template: &[TrackSizingFunction], reported: Option<i64>| -> i64 {
+        let (n, auto) = one_repetition_count(template);
+        match reported {
+            Some(e) if auto => e.min(n),
+            Some(e) => e,
+            None => n,
+        }
     };
+    let er = low(&parent.grid_template_rows, explicit.map(|x| x.0));
+    let ec = low(&parent.grid_template_columns, explicit.map(|x| x.1));
     let out = |l: &Line<GridPlacement>, e: i64| {
         let (mn, mx, sp) = estimate_contribution(l, e);
         mn < 0 || mx > e || sp > e.max(1)
@@ -471,8 +497,7 @@ pub fn run06(c: &Case) -> Verdict {
         (Some(a), _) => a.1[parent],
         _ => None,
     };
-    let known = in_known_class(st[target], st[parent], explicit.or(if st[parent].display == Display::Grid { Some((0, 0)) } else { None }))
-        && (explicit.is_some() || a.is_none() || b.is_none());
+    let mut known = in_known_class(st[target], st[parent], explicit);
     v.target_known_class = known;
     let (la, lb) = match (a, b) {
         (Some(a), Some(b)) => (a.0, b.0),
@@ -491,6 +516,32 @@ pub fn run06(c: &Case) -> Verdict {
         }
     };
     let cnt = flat[target].1;
+    if known && la.iter().enumerate().any(|(i, x)| !(i >= target && i < target + cnt) && *x != lb[if i < target { i } else { i - (cnt - 1) }]) {
+        // attribute the difference: a bare absolute leaf that keeps ONLY the grid placement must reproduce the original layouts
+        // everywhere outside the subtree (then nothing but grid_row / grid_column of the absolute child is responsible)
+        let mut spec3 = spec2.clone();
+        {
+            let s3 = &mut node_at_mut(&mut spec3, target).style;
+            s3.grid_row = st[target].grid_row.clone();
+            s3.grid_column = st[target].grid_column.clone();
+        }
+        match layout_all(&spec3, c.avail) {
+            Some((lc, _)) => {
+                for i in 0..la.len() {
+                    if i >= target && i < target + cnt {
+                        continue;
+                    }
+                    let j = if i < target { i } else { i - (cnt - 1) };
+                    let is_anc = anc.contains(&i);
+                    let is_sibling = flat[i].0 == Some(parent);
+                    if !diff_fields(&la[i], &lc[j], &|k| (is_anc && (k == 5 || k == 6)) || (is_sibling && k == 0)).is_empty() {
+                        known = false; // something else of the absolute node leaks as well
+                    }
+                }
+            }
+            None => known = false,
+        }
+    }
     for i in 0..la.len() {
         if i >= target && i < target + cnt {
             continue;
@@ -537,8 +588,9 @@ fn k_placement(rng: &mut Rng, line_range: i64, max_span: u64, p_auto: u64) -> (i
     }
 }
 
-/// grid containers with hidden and absolute children carrying random (mostly definite) placements
-pub fn k_case(seed: u64, idx: u64) -> c08::Case {
+/// grid containers with skipped children carrying random (mostly definite) placements; `skipped` = 1: half of the children are
+/// display:none (C05), 2: half of them position:absolute (C06) -- the mix of both kinds is covered by `vh c08 cases`
+pub fn k_case(seed: u64, idx: u64, skipped: i64) -> c08::Case {
     let mut rng = Rng::new(seed.wrapping_mul(0x9E37_79B9_7F4A_7C15).wrapping_add(idx) ^ 0x05C0_5C06);
     let ec = rng.below(5) as i64;
     let er = rng.below(5) as i64;
@@ -546,11 +598,7 @@ pub fn k_case(seed: u64, idx: u64) -> c08::Case {
     let n = 1 + rng.below(6) as usize;
     let children = (0..n)
         .map(|_| {
-            let kind = match rng.below(10) {
-                0..=3 => 0,
-                4..=6 => 1,
-                _ => 2,
-            };
+            let kind = if rng.below(2) == 0 { 0 } else { skipped };
             // skipped children get definite placements more often (they are what this family is about)
             let p_auto = if kind == 0 { 5 } else { 2 };
             c08::Child {
@@ -586,6 +634,81 @@ fn witness_heights() -> (f32, f32, f32) {
     let with_line = run(Some(a));
     let none = run(None);
     (with_line, bare, none)
+}
+
+
+// ------------------------------------------------------------------------------------------------ readable replay output
+
+/// `{:?}` of a style value with the CompactLength blobs decoded (`12.5px`, `25%`, `auto`, `1fr`, ...)
+fn decode_lengths(d: &str) -> String {
+    const PAT: &str = "CompactLength(CompactLengthInner { tagged_ptr: 0x";
+    let mut out = String::new();
+    let mut rest = d;
+    while let Some(i) = rest.find(PAT) {
+        out.push_str(&rest[..i]);
+        let tail = &rest[i + PAT.len()..];
+        let n = tail.find(|ch: char| !ch.is_ascii_hexdigit()).unwrap_or(tail.len());
+        let w = u64::from_str_radix(&tail[..n], 16).unwrap_or(0);
+        let v = f32::from_bits((w >> 32) as u32);
+        let txt = match w & 0xff {
+            1 => format!("{v}px"),
+            2 => format!("{}%", v * 100.0),
+            3 => "auto".to_string(),
+            4 => format!("{v}fr"),
+            7 => "min-content".to_string(),
+            15 => "max-content".to_string(),
+            23 => format!("fit-content({v}px)"),
+            31 => format!("fit-content({}%)", v * 100.0),
+            t => format!("tag{t}({v})"),
+        };
+        out.push_str(&txt);
+        let after = &tail[n..];
+        rest = after.strip_prefix(" })").unwrap_or(after);
+    }
+    out.push_str(rest);
+    for w in ["LengthPercentageAuto", "LengthPercentage", "Dimension", "MinTrackSizingFunction", "MaxTrackSizingFunction"] {
+        out = out.replace(&format!("{w}("), "(");
+    }
+    out
+}
+
+/// top-level `name: value` fields of a struct's `{:?}`
+fn top_fields(d: &str) -> Vec<String> {
+    let inner = &d[d.find('{').map(|i| i + 1).unwrap_or(0)..d.rfind('}').unwrap_or(d.len())];
+    let mut v = vec![];
+    let (mut depth, mut cur) = (0i32, String::new());
+    for ch in inner.chars() {
+        match ch {
+            '(' | '{' | '[' => depth += 1,
+            ')' | '}' | ']' => depth -= 1,
+            _ => {}
+        }
+        if ch == ',' && depth == 0 {
+            v.push(cur.trim().to_string());
+            cur.clear();
+        } else {
+            cur.push(ch);
+        }
+    }
+    if !cur.trim().is_empty() {
+        v.push(cur.trim().to_string());
+    }
+    v
+}
+
+/// the style fields that differ from Style::DEFAULT
+pub fn style_brief(s: &Style) -> String {
+    let a = top_fields(&decode_lengths(&format!("{:?}", s)));
+    let b = top_fields(&decode_lengths(&format!("{:?}", Style::DEFAULT)));
+    a.iter().zip(b.iter()).filter(|(x, y)| x != y).map(|(x, _)| x.clone()).collect::<Vec<_>>().join("; ")
+}
+
+pub fn spec_brief(spec: &NodeSpec, depth: usize, idx: &mut usize, out: &mut String) {
+    out.push_str(&format!("{}#{} {{{}}}{}\n", "  ".repeat(depth), *idx, style_brief(&spec.style), spec.ctx.as_ref().map(|c| format!(" measure={:?}", c)).unwrap_or_default()));
+    *idx += 1;
+    for c in &spec.children {
+        spec_brief(c, depth + 1, idx, out);
+    }
 }
 
 // ------------------------------------------------------------------------------------------------ main
@@ -633,7 +756,12 @@ fn one(which: u32, args: &[String]) {
     let seed: u64 = args[1].parse().unwrap();
     let idx: u64 = args[2].parse().unwrap();
     let c = if which == 5 { case05(seed, idx) } else { case06(seed, idx) };
-    println!("avail={} target={:?}\ntree: {:#?}", avail_str(c.avail), c.target, c.spec);
+    let mut txt = String::new();
+    spec_brief(&c.spec, 0, &mut 0, &mut txt);
+    println!("avail={} target={:?}\ntree (style fields differing from Style::DEFAULT):\n{}", avail_str(c.avail), c.target, txt);
+    if args.len() > 3 && args[3] == "full" {
+        println!("{:#?}", c.spec);
+    }
     let v = if which == 5 { run05(&c) } else { run06(&c) };
     if let Some((l, _)) = layout_all(&c.spec, c.avail) {
         for (i, x) in l.iter().enumerate() {
@@ -679,9 +807,10 @@ pub fn main05(args: &[String]) {
             let num = |i: usize| -> u64 { args[i].parse().unwrap() };
             let (seed, n) = (num(1), num(2));
             let start = if args.len() > 3 { num(3) } else { 0 };
+            let skipped = if args.len() > 4 { num(4) as i64 } else { 1 };
             let out = std::io::stdout();
             for idx in start..start + n {
-                let c = k_case(seed, idx);
+                let c = k_case(seed, idx, skipped);
                 {
                     let mut o = out.lock();
                     writeln!(o, "C {}", c.line()).unwrap();
